@@ -1033,6 +1033,16 @@ class Mailbox:
                 # IF they are in IDLE, then we can send the notifications
                 # immediately.
                 #
+                # NOTE: Whatever is still queued for this client is older than
+                #       what we are about to send and has to go out first: an
+                #       EXPUNGE that overtakes a queued FETCH leaves that
+                #       FETCH with a message sequence number that no longer
+                #       means the message it was generated for.
+                #
+                if c.pending_notifications:
+                    queued = c.pending_notifications
+                    c.pending_notifications = []
+                    await c.client.push(*queued)
                 await c.client.push(*notifications)
             else:
                 # Otherwise stick the notifications on a pending list and the
